@@ -106,7 +106,7 @@ func main() {
 	t0 := time.Now()
 	b := *budget
 	if b == 0 {
-		b = 150 * time.Second
+		b = 300 * time.Second
 		if *tier == "thorough" {
 			b = 25 * time.Minute
 		}
